@@ -60,7 +60,7 @@ CHECKS["C02"] = dict(
           "the end of the longest null-free non-decreasing prefix, one code per prefix row, labels strictly increasing, label at a row's code has the row's "
           "key; monotonic_codes_eq_iff; monotonic_null_first - for any comparison functions that agree with the key order on non-null elements. Several keys, "
           "end to end: factorize2d_codes_eq_iff - through the per-key factorizations, the mixed-radix combination and the final factorization two rows get "
-          "the same code exactly when both hold a null in some key, or neither does and they agree in every key column." " Source level (new): the counting sort _build_group_sorted_indexer_numba is translated from core.py on every run and proved correct (LoopBridge/CountingSort, source_counting_sort): with the true group sizes the segment of every group lists exactly the ascending positions of its rows, for any chunking of the codes and any mask. _weight_code_sum likewise (LoopBridge/WeightCode, source_weight_code_sum): the null code iff ANY component code is null, the last key included, else the injective mixed-radix value. _monotonic_factorization (the chunk-walking sorted-prefix kernel of numba.py) likewise (LoopBridge/MonoFact, source_monotonic_eq_model): codes, labels and cut-off equal the model on the concatenated chunks, both while loops within their declared bounds."),
+          "the same code exactly when both hold a null in some key, or neither does and they agree in every key column." " Source level (new): the counting sort _build_group_sorted_indexer_numba is translated from core.py on every run and proved correct (LoopBridge/CountingSort, source_counting_sort): with the true group sizes the segment of every group lists exactly the ascending positions of its rows, for any chunking of the codes and any mask. _weight_code_sum likewise (LoopBridge/WeightCode, source_weight_code_sum): the null code iff ANY component code is null, the last key included, else the injective mixed-radix value. _monotonic_factorization (the chunk-walking sorted-prefix kernel of numba.py) likewise (LoopBridge/MonoFact, source_monotonic_eq_model): codes, labels and cut-off equal the model on the concatenated chunks, both while loops within their declared bounds. _combine_factorizations (array tracker and dict tracker: both numba specialisations are translated, the alias uniques = codes eliminated by renaming) is proved to number the rows' mixed-radix keys by first appearance and to collect the first row of every key (LoopBridge/CombineFact, source_combine_factorizations, source_combine_factorizations_dict)."),
     note="pd.factorize / get_indexer / drop_duplicates are assumed (exercised, not proved); the chunk-pointer route is modelled (C03 chunk_route_eq_global) and tied by correspondence.",
     technique="Lean 4 proof (list induction; mixed-radix injectivity; counting-sort correctness of the translated source loop) + relations evaluated on the implementation's output for every route + model correspondence",
     design="§7 C02",
